@@ -13,7 +13,9 @@ ID = "C09"
 RUNS = {"quick": 40000, "thorough": 60000, "thorough_s": 300}
 CHUNK = 100
 RUN_TIMEOUT = 120.0
-RULE = ("seeded simple graphs without isolated vertices, 2..10 vertices (thorough ..14): G(n,p) at several densities, "
+RULE = ("seeded simple graphs without isolated vertices: clustered graphs (unions of 3..12 mostly edge-disjoint cliques of 2-5 "
+        "vertices, some overlapping on an edge or vertex, optionally a rook's-graph block; up to ~40 vertices), and 2..10 "
+        "vertices (thorough ..14) G(n,p) at several densities, "
         "planted overlapping cliques (cliques sharing an edge / a vertex, chains of triangles), complete graphs, arbitrary "
         "non-contiguous integer labels, scheduler-chosen edge insertion order and orientation, built by add_edge or "
         "add_edges_from; m0 in 2..6 (below, at, above the clique number); tie-break schedules uniform/first/last/"
@@ -27,10 +29,34 @@ STUB = ["entropy source (decision stream)"]
 
 
 def gen_graph(prng, big):
-    kind = prng.choice(("gnp", "gnp", "gnp", "planted", "planted", "chain", "complete"))
+    kind = prng.choice(("gnp", "gnp", "gnp", "planted", "planted", "chain", "complete", "clustered", "clustered"))
     nmax = 14 if big else 10
     edges = set()
-    if kind == "gnp":
+    if kind == "clustered":
+        # what the algorithm is meant for: a union of many (mostly edge-disjoint) small cliques - as produced by the
+        # GCM generators - plus a few cliques overlapping an existing one on an edge or a vertex; sparse, so cheap
+        n = 0
+        groups = []
+        for _ in range(prng.randrange(3, 13 if not big else 18)):
+            k = prng.choice((2, 3, 3, 3, 4, 4, 5))
+            share = 0
+            if groups and prng.random() < 0.35:
+                share = prng.choice((1, 1, 2))
+            base = prng.sample(prng.choice(groups), share) if share else []
+            q = list(base)
+            while len(q) < k:
+                q.append(n)
+                n += 1
+            groups.append(q)
+            edges.update(combinations(sorted(q), 2))
+        if prng.random() < 0.5:       # grid-like arrangement: rows and columns of a rook's graph are edge-disjoint cliques
+            a = prng.choice((2, 3, 3, 4))
+            off = n
+            for i in range(a):
+                edges.update(combinations([off + i * a + j for j in range(a)], 2))
+                edges.update(combinations([off + j * a + i for j in range(a)], 2))
+            n += a * a
+    elif kind == "gnp":
         n = prng.randrange(2, nmax + 1)
         p = prng.choice((0.3, 0.5, 0.7, 0.9) if n <= 8 else (0.3, 0.5, 0.6))
         for i in range(n):
@@ -59,7 +85,7 @@ def gen_graph(prng, big):
     if not edges:
         edges = {(0, 1)}
     used = sorted({v for e in edges for v in e})
-    labels = dict(zip(used, sorted(prng.sample(range(0, 60), len(used))) if prng.random() < 0.6 else used))
+    labels = dict(zip(used, sorted(prng.sample(range(0, max(60, 3 * len(used))), len(used))) if prng.random() < 0.6 else used))
     if prng.random() < 0.4:
         vals = list(labels.values())
         prng.shuffle(vals)
